@@ -23,15 +23,15 @@ var (
 )
 
 type opGen struct {
-	t       *rapid.T
-	f       *family
-	nodes   int
-	frags   []string            // finished fragment definitions
-	byCond  map[string][]string // type condition -> fragment names available for reuse
-	nfrag   int
-	feats   map[string]bool
-	possOf  map[string][]string
-	compos  []string // composite type names usable as type conditions
+	t      *rapid.T
+	f      *family
+	nodes  int
+	frags  []string            // finished fragment definitions
+	byCond map[string][]string // type condition -> fragment names available for reuse
+	nfrag  int
+	feats  map[string]bool
+	possOf map[string][]string
+	compos []string // composite type names usable as type conditions
 }
 
 func newOpGen(t *rapid.T, f *family) *opGen {
